@@ -118,8 +118,11 @@ def helpers_of(fx, proc):
     return sum(1 for e in fx.events() if e["k"] == "start" and (e.get("id") or {}).get("cmd") == proc.cmd)
 
 
-def new_fixture(bins, bind_timeout_ms=None, lock_host=None):
+def new_fixture(bins, bind_timeout_ms=None, lock_host=None, lock_override=None):
     fx = fixture.Fixture(bins, [{"path": "t1"}, {"path": "t2", "uses": ["t1"]}], max_retained_runs=3, lock_host=lock_host)
+    if lock_override is not None:
+        fx.lock_override = lock_override
+        fx.write_config()
     if bind_timeout_ms:
         cfg = fx.config()
         cfg["server"]["lock"]["bind_timeout_ms"] = bind_timeout_ms
@@ -132,8 +135,11 @@ def new_fixture(bins, bind_timeout_ms=None, lock_host=None):
 
 
 def parked_scenario(bins, idx, spec, rng):
-    """spec: {"holder": api, "contenders": [api..], "end": "release"|"fail"|"kill", "successor": api}"""
-    fx = new_fixture(bins, lock_host="localhost" if idx % 3 == 1 else None)
+    """spec: {"holder": api, "contenders": [api..], "end": "release"|"fail"|"kill", "successor": api}
+    spec["lock"]: the `server.lock` object of the configuration, as given (a lock object without a port: the default port
+    applies, on a loopback address of the scenario's own; a port no TCP socket can have: nobody can ever hold that
+    lock -- every invocation fails, none does anything -- marked `unusable`)"""
+    fx = new_fixture(bins, lock_host="localhost" if idx % 3 == 1 else None, lock_override=spec.get("lock"))
     try:
         release = os.path.join(fx.root, "release")
         n = [0]
@@ -170,7 +176,8 @@ def parked_scenario(bins, idx, spec, rng):
         succ.wait()
         recs.append(holder.record(helpers_of(fx, holder), False))
         recs.append(succ.record(helpers_of(fx, succ), False))
-        return {"ev": "lock", "scenario": idx, "kind": "parked", "spec": spec, "procs": sorted(recs, key=lambda r: r["p"])}
+        return {"ev": "lock", "scenario": idx, "kind": "parked", "spec": spec, "procs": sorted(recs, key=lambda r: r["p"]),
+                "unusable": bool(spec.get("unusable"))}
     finally:
         fx.cleanup()
 
@@ -348,6 +355,15 @@ def run(pid, tier):
     for _ in range(extra):
         specs.append({"holder": rng.choice(APIS), "contenders": [rng.choice(APIS) for _ in range(rng.randint(1, 5))],
                       "end": rng.choice(["release", "kill", "fail"]), "successor": rng.choice(APIS)})
+    # lock addresses at the edges of what the configuration can say: a `server.lock` object without a port (the default
+    # port, on a loopback address of the scenario's own), and port numbers no TCP socket can have
+    for k in range(3 if tier == "quick" else 12):
+        host = "127.%d.%d.%d" % (1 + os.getpid() % 250, 1 + (chk.seed * 7 + k) % 250, 1 + k % 250)
+        specs.append({"holder": "run", "contenders": [rng.choice(APIS), "run"], "end": rng.choice(["release", "kill"]), "successor": rng.choice(APIS),
+                      "lock": [{"host": host}, {"host": host, "bind_timeout_ms": 1000}, {"host": host}][k % 3]})
+    for k, port in enumerate([65536, 4294967296] + ([131072, 65536 * 3] if tier == "thorough" else [])):
+        specs.append({"holder": "run", "contenders": [APIS[k % 4], "run"], "end": "release", "successor": rng.choice(APIS),
+                      "lock": {"port": port}, "unusable": True})
     noff = 25 if tier == "quick" else 300
     nq = 6 if tier == "quick" else 60
     queued = [{"holder": rng.choice(APIS), "contenders": [APIS[q % 4]], "end": "release", "successor": "", "queued": True} for q in range(nq)]
